@@ -13,6 +13,7 @@
   `ProcessState::print_json` on every run.
 -/
 import MdProofs.Lemmas.JsonParse
+import MdProofs.Lemmas.JsonSchema
 namespace MdModel.Json
 open MdModel
 
@@ -510,5 +511,279 @@ theorem render_parses_bytes (j : Json) :
 /-- in particular the report of every state on which `print_json` returns -/
 theorem report_valid_json (s : StateModel) (j : Json) (_h : printJson s = .ok j) :
     (renderBytes j).IsValidUTF8 ∧ parseBytes (renderBytes j) = some j := render_parses_bytes j
+
+/-! ## 8. "matching the documented schema: field names, types, enumerations, hex strings"
+
+  `Conforms` (MdModel/Json.lean §8) is the transcription of json-schema.md. Besides `WF` the
+  theorem needs
+  * `Typed s`      — every number is inside the width of the Rust field it comes from (`u64`
+                     addresses, `u32` ids/lines/counts, `u8` sizes …) and the `BTreeSet`s of
+                     unloaded-module offsets are non-empty and ascending; these are facts of the
+                     Rust types / of the processor, not restrictions on the dump;
+  * `Documented s` — the state avoids the THREE places where the code leaves the document
+                     (known findings, notes/C15.md): unknown OS id, handle values ≥ 2^32,
+                     a `soft_errors` value that is not an array of objects. Each clause is
+                     necessary: `os_unknown_not_hexstring` below, and engine `json` exhibits
+                     all three on the real code (KNOWN-FINDING lines of the check). -/
+
+structure Typed (s : StateModel) : Prop where
+  pid : ∀ n, s.pid = some n → n ≤ U32MAX
+  nthreads : s.threads.length ≤ U32MAX
+  cpuCount : s.sys.cpuCount ≤ U32MAX
+  microcode : ∀ n, s.sys.microcode = some n → n ≤ U64MAX
+  mapCount : ∀ n, s.memoryMapCount = some n → n ≤ U32MAX
+  threads : ∀ t ∈ s.threads, ThreadTyped t
+  regs : ∀ t ∈ s.threads, ∀ f ∈ t.frames, RegsTyped f.ctx
+  exc : ∀ e, s.exc = some e → ExcTyped e
+  mac : ∀ rs, s.macCrashInfo = some rs → rs.length ≤ U32MAX ∧ ∀ r ∈ rs,
+    (∀ n, r.thread = some n → n ≤ U64MAX) ∧ (∀ n, r.dialogMode = some n → n ≤ U64MAX) ∧
+    (∀ n, r.abortCause = some n → n ≤ U64MAX)
+
+structure Documented (s : StateModel) : Prop where
+  os : ∀ v, s.sys.os ≠ .unknown v
+  handles : ∀ hs, s.handles = some hs → ∀ h ∈ hs, h.handle ≤ U32MAX
+  soft : ∀ j, s.softErrors = some j → ∃ xs, j = .arr xs ∧ ∀ x ∈ xs, x = .null ∨ ∃ kvs, x = .obj kvs
+
+theorem widthOf_report (s : StateModel) (j : Json)
+    (hsys : j.get "system_info" = some (systemInfoJson s.sys)) : widthOf j = s.sys.cpu.pw.digits := by
+  simp only [widthOf, hsys, Option.bind_some, systemInfoJson, get_mkObj]
+  cases s.sys.cpu <;> simp [lookupLast, Cpu.name, Cpu.pw, PW.digits]
+
+/-- all members of the `json!` literal have their documented types -/
+theorem check_base (s : StateModel) (ms ts us : List Json) (extra : List (String × Json))
+    (wf : WF s) (ty : Typed s) (doc : Documented s)
+    (hms : ∀ x ∈ ms, ∀ q, check s.sys.cpu.pw.digits (.obj [
+      ("base_addr", .hexA), ("end_addr", .hexA), ("debug_file", .str), ("debug_id", .str),
+      ("filename", .str), ("code_id", .str), ("version", .str), ("cert_subject", .str),
+      ("missing_symbols", .bool), ("loaded_symbols", .bool), ("corrupt_symbols", .bool),
+      ("symbol_url", .str)]) x q = none)
+    (hts : ∀ x ∈ ts, ∀ q, check s.sys.cpu.pw.digits (.obj threadFields) x q = none)
+    (hus : ∀ x ∈ us, ∀ q, check s.sys.cpu.pw.digits (.obj [
+      ("base_addr", .hexA), ("end_addr", .hexA), ("code_id", .str), ("filename", .str),
+      ("cert_subject", .str)]) x q = none)
+    (hextra : ∀ q, check s.sys.cpu.pw.digits (.obj (("threads_index", .u32) :: threadFields))
+      (match lookupLast "crashing_thread" extra with | some c => c | none => .null) q = none)
+    (hextra' : ∀ k, k ≠ "crashing_thread" → lookupLast k extra = none) :
+    check s.sys.cpu.pw.digits schema (mkObj (baseFields s.sys.cpu.pw s ms ts us ++ extra)) "$" = none := by
+  have hreq : ∀ n, s.requestingThread = some n → n ≤ U32MAX := fun n hn => by
+    have := wf.req n hn; have := ty.nthreads; omega
+  have hlsb : ∀ q, check s.sys.cpu.pw.digits (.obj [("id", .str), ("release", .str), ("codename", .str),
+      ("description", .str)]) (optJ (fun l : Lsb => mkObj [("id", .str l.id), ("release", .str l.release),
+        ("codename", .str l.codename), ("description", .str l.description)]) s.lsb) q = none := by
+    intro q; cases s.lsb with
+    | none => exact check_null _ _ _
+    | some l => exact check_lsb _ l q
+  have hsoft : ∀ q, check s.sys.cpu.pw.digits (.arr (.obj [])) (optJ id s.softErrors) q = none := by
+    intro q
+    cases hs : s.softErrors with
+    | none => exact check_null _ _ _
+    | some j =>
+      obtain ⟨xs, rfl, hxs⟩ := doc.soft j hs
+      apply check_arr
+      intro x hx q'
+      rcases hxs x hx with h | ⟨kvs, h⟩ <;> subst h <;> simp [check, checkFields]
+  have hmac : ∀ q, check s.sys.cpu.pw.digits (.obj [
+      ("num_records", .u32),
+      ("records", .arr (.obj [("thread", .hexA), ("dialog_mode", .hexA), ("abort_cause", .hexA),
+          ("module", .str), ("message", .str), ("signature_string", .str), ("backtrace", .str),
+          ("message2", .str)]))])
+      (optJ (fun rs : List MacRecord => mkObj [("num_records", .nat rs.length),
+        ("records", .arr (rs.map (macRecordJson s.sys.cpu.pw)))]) s.macCrashInfo) q = none := by
+    intro q
+    cases hm : s.macCrashInfo with
+    | none => exact check_null _ _ _
+    | some rs =>
+      obtain ⟨hn, hr⟩ := ty.mac rs hm
+      have hrec := fun q' => check_arr s.sys.cpu.pw.digits (.obj [("thread", .hexA), ("dialog_mode", .hexA),
+          ("abort_cause", .hexA), ("module", .str), ("message", .str), ("signature_string", .str),
+          ("backtrace", .str), ("message2", .str)]) (rs.map (macRecordJson s.sys.cpu.pw)) q'
+        (by
+          intro x hx q''
+          obtain ⟨r, hrm, rfl⟩ := List.mem_map.mp hx
+          exact check_macRecord _ r q'' (hr r hrm).1 (hr r hrm).2.1 (hr r hrm).2.2)
+      simp [optJ_some, checkFields_mkObj, checkFields, getKV_insertKV, getKV, check_u32 _ _ _ hn, hrec]
+  have hboot : ∀ q, check s.sys.cpu.pw.digits .str (optJ optStr s.macBootArgs) q = none := by
+    intro q; cases s.macBootArgs with
+    | none => exact check_null _ _ _
+    | some o => exact check_optStr _ o q
+  have hhandles : ∀ q, check s.sys.cpu.pw.digits (.arr (.obj [("handle", .u32), ("type_name", .str),
+      ("object_name", .str)])) (optJ (fun hs : List HandleM => .arr (hs.map handleJson)) s.handles) q = none := by
+    intro q
+    cases hh : s.handles with
+    | none => exact check_null _ _ _
+    | some hs =>
+      apply check_arr
+      intro x hx q'
+      obtain ⟨h, hm, rfl⟩ := List.mem_map.mp hx
+      exact check_handleJson _ h (doc.handles hs hh h hm) q'
+  have hsys := fun q => check_systemInfo s.sys.cpu.pw.digits s.sys doc.os ty.cpuCount ty.microcode q
+  have hci := fun q => check_crashInfo s.sys.cpu.pw s q ty.exc hreq
+  have hmods := fun q => check_arr _ _ ms q hms
+  have hthreads := fun q => check_arr _ _ ts q hts
+  have hunl := fun q => check_arr _ _ us q hus
+  have hct : lookupLast "crashing_thread" (baseFields s.sys.cpu.pw s ms ts us ++ extra) =
+      lookupLast "crashing_thread" extra := by
+    rw [lookupLast_append]; cases lookupLast "crashing_thread" extra <;> simp [baseFields, lookupLast]
+  unfold schema
+  rw [checkFields_mkObj]
+  simp only [checkFields, getKV_lits, lookupLast_append, hct]
+  simp (config := {decide := true}) only [hextra' _]
+  simp [baseFields, lookupLast, check_optNat_u32 _ _ _ ty.pid, check_optNat_u32 _ _ _ ty.mapCount,
+    check_u32 _ _ _ ty.nthreads, check_u32 _ 0 _ (by decide), hlsb, hsoft, hmac, hboot, hhandles, hsys, hci,
+    hmods, hthreads, hunl]
+  cases hl : lookupLast "crashing_thread" extra with
+  | none => rfl
+  | some c =>
+    have := hextra "$.crashing_thread"
+    simp only [hl] at this
+    simp [this]
+
+theorem conforms_of_check (s : StateModel) (lits : List (String × Json))
+    (hsys : (mkObj lits).get "system_info" = some (systemInfoJson s.sys))
+    (h : check s.sys.cpu.pw.digits schema (mkObj lits) "$" = none) : Conforms (mkObj lits) = true := by
+  have hw := widthOf_report s (mkObj lits) hsys
+  simp only [Conforms, conformsAt]
+  simp only [mkObj] at hw h ⊢
+  rw [hw, h]
+  rfl
+
+/-- **conforms** — for every well-formed, well-typed state outside the three documented
+    departures, `print_json` returns and its value satisfies the schema predicate: every
+    documented member has its documented JSON type (or is `null`), enumerations hold, every
+    address is a `0x` hex string of at least the platform's pointer width, `offsets` arrays are
+    non-empty and ascending, `registers` maps names to hex strings. -/
+theorem conforms (s : StateModel) (wf : WF s) (ty : Typed s) (doc : Documented s) :
+    ∃ j, printJson s = .ok j ∧ Conforms j = true := by
+  obtain ⟨j, hj⟩ := printJson_total s wf
+  refine ⟨j, hj, ?_⟩
+  obtain ⟨ms, ts, us, hms, hts, hus, hadd⟩ := printJson_ok s j hj
+  obtain ⟨_, hmk⟩ := omapM_ok _ _ _ hms
+  obtain ⟨htl, htk⟩ := omapM_ok _ _ _ hts
+  obtain ⟨_, huk⟩ := omapM_ok _ _ _ hus
+  have mem_idx : ∀ {α β : Type} (f : α → Outcome β) (xs : List α) (ys : List β),
+      omapM f xs = .ok ys → ∀ y ∈ ys, ∃ x ∈ xs, f x = .ok y := by
+    intro α β f xs ys h y hy
+    obtain ⟨hl, hk⟩ := omapM_ok f xs ys h
+    obtain ⟨k, hklt, hky⟩ := List.getElem_of_mem hy
+    have hk' : k < xs.length := by omega
+    obtain ⟨y', h1, h2⟩ := hk k xs[k] (by simp [hk'])
+    have : ys[k]? = some y := by simp [hklt, hky]
+    rw [this] at h1; cases h1
+    exact ⟨xs[k], List.getElem_mem hk', h2⟩
+  have hms' : ∀ x ∈ ms, ∀ q, check s.sys.cpu.pw.digits _ x q = none := fun x hx q => by
+    obtain ⟨m, _, hok⟩ := mem_idx _ _ _ hms x hx
+    exact check_moduleJson _ _ _ m x hok q
+  have hts' : ∀ x ∈ ts, ∀ q, check s.sys.cpu.pw.digits (.obj threadFields) x q = none := fun x hx q => by
+    obtain ⟨t, ht, hok⟩ := mem_idx _ _ _ hts x hx
+    exact check_threadJson _ t x hok (ty.threads t ht) q
+  have hus' : ∀ x ∈ us, ∀ q, check s.sys.cpu.pw.digits _ x q = none := fun x hx q => by
+    obtain ⟨m, _, hok⟩ := mem_idx _ _ _ hus x hx
+    exact check_unloadedJson _ _ m x hok q
+  have hsysget : ∀ extra : List (String × Json), (∀ k, k ≠ "crashing_thread" → lookupLast k extra = none) →
+      (mkObj (baseFields s.sys.cpu.pw s ms ts us ++ extra)).get "system_info" = some (systemInfoJson s.sys) := by
+    intro extra he
+    rw [get_mkObj, lookupLast_append, he _ (by decide)]
+    simp [baseFields, lookupLast]
+  have nocopy : Conforms (mkObj (baseFields s.sys.cpu.pw s ms ts us)) = true := by
+    have hb := check_base s ms ts us [] wf ty doc hms' hts' hus'
+      (by intro q; simp [lookupLast, check_null]) (by intro k _; rfl)
+    have hs := hsysget [] (by intro k _; rfl)
+    simp only [List.append_nil] at hb hs
+    exact conforms_of_check s _ hs hb
+  simp only [addCrashing] at hadd
+  split at hadd
+  · cases hadd; exact nocopy
+  · rename_i i hreq
+    split at hadd
+    · rename_i t tj hti htj
+      split at hadd
+      · cases hadd; exact nocopy
+      · rename_i f0 rest hfr
+        split at hadd
+        · rename_i c hc
+          cases hadd
+          have htm : t ∈ s.threads := List.mem_of_getElem? hti
+          have htjm : tj ∈ ts := List.mem_of_getElem? htj
+          obtain ⟨tj', htj', htok⟩ := htk i t hti
+          rw [htj] at htj'; cases htj'
+          obtain ⟨fs, hfs, _, hframes, _⟩ := threadJson_shape _ t tj htok
+          have hfsc := check_framesJson s.sys.cpu.pw t.frames 0 fs hfs (ty.threads t htm).frames
+            (by have := (ty.threads t htm).nframes; omega)
+          have hi : i ≤ U32MAX := by
+            have := wf.req i hreq; have := ty.nthreads; omega
+          have hcc := fun q => check_crashingCopy s.sys.cpu.pw.digits tj c (registersJson f0.ctx) i fs hc
+            (hts' tj htjm) hframes hfsc
+            (fun q' => check_registers _ f0.ctx (ty.regs t htm f0 (by rw [hfr]; simp)) q') hi q
+          have hex' : ∀ k, k ≠ "crashing_thread" → lookupLast k [("crashing_thread", c)] = none := by
+            intro k hk; simp [lookupLast, hk]
+          have hb := check_base s ms ts us [("crashing_thread", c)] wf ty doc hms' hts' hus'
+            (by intro q; simpa [lookupLast] using hcc q) hex'
+          exact conforms_of_check s _ (hsysget _ hex') hb
+        · cases hadd
+    · cases hadd
+
+/-- Necessity of `Documented.os`: the unknown-OS spelling `0x0x…` is not a `<hexstring>`. -/
+theorem os_unknown_not_hexstring (v : Nat) (w : Nat) : isHexString w (Os.longName (.unknown v)) = false := by
+  simp [Os.longName, isHexString, hexPad, String.toList_append, isHexLower, isDigit]
+
+/-! ## 9. non-vacuity: a concrete state satisfying every hypothesis set -/
+
+def exFrame : FrameM :=
+  { instruction := 0x401234, module := some ("C:\\bin\\app \"x\".exe", 0x400000),
+    unloaded := [("old.dll", [0x10, 0x20])], functionName := some "main\n", functionBase := some 0x401000,
+    sourceFile := some "a.c", sourceLine := some 7, inlines := [⟨"inl", none, some 3⟩],
+    trust := .context, ctx := ⟨4, [("eip", 0x401234), ("esp", 0xff00)], some ["eip"]⟩ }
+
+def exState : StateModel :=
+  { pid := some 42, certInfo := [], exc := some ⟨"SIGSEGV", 0x10, some (.nullOffset 0x10), none, none, none, [], []⟩,
+    assertion := none, requestingThread := some 0,
+    threads := [⟨[exFrame], 7, some "t", none⟩, ⟨[], 8, none, none⟩],
+    sys := ⟨.linux, some "5.4", none, .x86, none, 4, some 0x1f⟩, lsb := none, procLimits := none,
+    macCrashInfo := none, macBootArgs := none,
+    modules := [⟨0x400000, 0x10000, "C:\\bin\\app \"x\".exe", none, "0", "", none⟩],
+    unloaded := [⟨0x10000, 0x1000, "old.dll", "5f00"⟩], handles := some [⟨3, some "File", none⟩],
+    symbolStats := [], memoryMapCount := some 12, softErrors := some (.arr [.obj []]) }
+
+example : WF exState := by
+  constructor <;> simp [exState, exFrame, U64MAX]
+
+example : Typed exState := by
+  constructor
+  · simp [exState, U32MAX]
+  · simp [exState, U32MAX]
+  · simp [exState, U32MAX]
+  · simp [exState, U64MAX]
+  · simp [exState, U32MAX]
+  · intro t ht
+    simp [exState] at ht
+    rcases ht with rfl | rfl
+    · refine ⟨by simp [U32MAX], by simp [U32MAX], ?_⟩
+      intro f hf
+      simp at hf; subst hf
+      constructor <;> simp [exFrame, U64MAX, U32MAX, ascending]
+    · exact ⟨by simp [U32MAX], by simp [U32MAX], by simp⟩
+  · intro t ht f hf
+    simp [exState] at ht
+    rcases ht with rfl | rfl
+    · simp at hf; subst hf; intro r hr; simp [exFrame] at hr; rcases hr with rfl | rfl <;> simp [U64MAX]
+    · simp at hf
+  · intro e he
+    simp [exState] at he; subst he
+    constructor <;> simp [U64MAX]
+  · simp [exState]
+
+example : Documented exState := by
+  constructor
+  · simp [exState]
+  · simp [exState, U32MAX]
+  · intro j hj
+    simp [exState] at hj; subst hj
+    exact ⟨_, rfl, by simp⟩
+
+/-- a state outside `WF` on which the model (like the code) panics: instruction below the module base -/
+example : printJson { exState with threads := [⟨[{ exFrame with instruction := 0x3fffff }], 7, none, none⟩] } =
+    .panic "module_offset: frame.instruction - module.raw.base_of_image" := by
+  simp [printJson, exState, exFrame, omapM, obind, moduleJson, checkedAdd, U64MAX, threadJson, framesJson,
+    frameJson, checkedSub]
 
 end MdModel.Json
